@@ -8,6 +8,7 @@ package main
 
 import (
 	"bytes"
+	crand "crypto/rand"
 	"fmt"
 	"math/big"
 	"strings"
@@ -451,6 +452,47 @@ func main() {
 			}
 			R.Run("PublicKey.Equal", "equalmatrix", mc.D{"a": lib.PtHex(a.P), "b": lib.PtHex(b.P)})
 		}
+	}
+	// key generation with crypto/rand.Reader replaced by scripted candidate streams (sequential; process-global):
+	// the key must be exactly the first candidate in [1,n) - never a reduced out-of-range candidate
+	{
+		type gs struct {
+			cands []*big.Int
+			want  *big.Int
+		}
+		nm1 := new(big.Int).Sub(ref.N, big.NewInt(1))
+		max := new(big.Int).Sub(ref.R256, big.NewInt(1))
+		streams := []gs{
+			{[]*big.Int{big.NewInt(5)}, big.NewInt(5)}, {[]*big.Int{ref.N, big.NewInt(7)}, big.NewInt(7)}, {[]*big.Int{big.NewInt(0), nm1}, nm1},
+			{[]*big.Int{new(big.Int).Add(ref.N, big.NewInt(5)), max, big.NewInt(0), big.NewInt(9)}, big.NewInt(9)},
+			{[]*big.Int{max, max, max, max, max, max, max, big.NewInt(3)}, big.NewInt(3)},
+			{[]*big.Int{max, max, max, max, max, max, max, max, big.NewInt(3)}, nil}, // retry limit (8) exhausted: must fail
+		}
+		for si, st := range streams {
+			var data []byte
+			for _, c := range st.cands {
+				data = append(data, ref.B32(c)...)
+			}
+			data = append(data, bytes.Repeat([]byte{0x11}, 64)...)
+			old := crand.Reader
+			crand.Reader = bytes.NewReader(data)
+			k, err := secec.GenerateKey()
+			crand.Reader = old
+			R.T(1)
+			bad := ""
+			switch {
+			case st.want == nil && (err == nil || k != nil):
+				bad = "all candidates up to the retry limit out of range, yet a key was generated"
+			case st.want != nil && err != nil:
+				bad = "GenerateKey failed although an in-range candidate was available: " + err.Error()
+			case st.want != nil && !bytes.Equal(k.Bytes(), ref.B32(st.want)):
+				bad = fmt.Sprintf("generated key %x, expected exactly the first in-range candidate %x (out-of-range candidates must be discarded, not reduced)", k.Bytes(), st.want)
+			}
+			if bad != "" {
+				R.Fail(fmt.Sprintf("GenerateKey/scripted system RNG/stream %d", si), "misc", map[string]any{"stream": si, "what": bad}, nil)
+			}
+		}
+		R.Class("generated keys (scripted crypto/rand.Reader candidate streams)", int64(len(streams)))
 	}
 	// key generation from the system entropy source: valid, consistent, not repeating
 	var gen [][]byte
